@@ -10,78 +10,166 @@ PINNED = ("cd /repo && /venv/bin/python -m pytest -ra -q -p no:cacheprovider --t
 
 # id -> (technique, claimed text, level_note (not decided / trusted), design_ref)
 PROPS = {
-    "C01": ("must-pass-through gate + def-use role pairing + slot coverage modulo extracted scheme constraints (ast)",
-            "Decides structural necessary conditions of the score definition for all inputs: the completeness gate "
-            "dominates scoring and its exception is not swallowed; the two count vectors are dotted with B and T in "
-            "that order; every counter slot that is never written is justified by a constraint the scheme constructor "
-            "enforces; prefix/suffix missing-element arrays feed the right slots.",
-            "NOT decided: numeric correctness of the n.log n inversion / run-length counting. Trusted: numpy vdot/cumsum.",
+    "C01": ("abstract evaluation of the scoring routine on every (candidate, input ranking) pair of a small universe with "
+            "intercepted dot products, giving the score as a linear form over B[i]/T[i]; compared with the definitional "
+            "form modulo the equalities the scheme constructor enforces; call-graph rule for the refusal gate",
+            "Decides, for every valid scheme at once (penalties stay symbolic), that the n.log n counting (merge-sort "
+            "inversions, tie runs, missing-element prefix sums) yields the definitional pair-status counts for all "
+            "candidates with ties over <= 3 elements (thorough: 4; quick adds a slice of 4) against all input rankings "
+            "over subsets, that contributions add over rankings, that candidates over a superset are handled, that the "
+            "result is vdot(s1,B)+vdot(s2,T), and that an incomplete candidate is refused before scoring with no caller "
+            "swallowing the exception.",
+            "NOT decided: universes beyond the bound (argued: bucket ids are only compared). Trusted: numpy "
+            "sort/cumsum/concatenate/vdot as modelled in engines/stdlib.py.",
             "DESIGN.md section 3 C01"),
     "C02": ("abstract evaluation of the kernel over the 6 order types of a pair (finite table extraction) + def-use checks",
             "Decides, for every scheme and dataset, that the cost kernel implements exactly the definitional 6x3 penalty "
             "table with per-ranking weights, visits every unordered pair and ranking once, mirrors (y,x) from (x,y), uses "
             "positions only through comparisons (so positions and bucket ids give the same table), and that the unranked "
             "sentinel / B,T rows / matrix orientation agree between Dataset, Ranking, ScoringScheme and the wrapper.",
-            "NOT decided: that selected entries sum to the Kemeny score (composition with C01's numeric core). "
+            "NOT decided separately: that selected entries sum to the Kemeny score (it is T1+T2 composed with C01). "
             "Trusted: numba nopython semantics, numpy broadcasting of `row * weights[:, newaxis]`.",
             "DESIGN.md section 3 C02"),
-    "C04": ("abstract evaluation of the score producers (lazy path scenarios, BioConsert initial-score table with a "
-            "symbolic cost matrix, local-search delta bookkeeping, selection scenarios) + producer enumeration + "
-            "optional-value guard rule reading the dependency's source",
-            "Decides for all inputs: which code stores a reported score (closed set of producers), that the lazy path "
-            "computes the missing score from the first ranking with the object's own dataset and scheme and never "
-            "overwrites a supplied one, that every algorithm's Consensus carries the caller's dataset and scheme, that "
-            "BioConsert's initial score is the definitional sum over pairs with row-major strides, that the local "
-            "search returns the sum of accepted deltas, that BioConsert reports the minimum final score, and that a "
-            "possibly-None solver value is never stored unguarded.",
-            "NOT decided: float accumulation error of deltas; the number a solver reports as objective value. Trusted: "
-            "numba nopython semantics; numpy amin/where/flatten/reshape as modelled in rules/bioc.py.",
+    "C03": ("structural rule on Consensus construction sites + end-to-end abstract evaluation of the real code of all "
+            "twelve algorithm configurations on eight small datasets x four schemes x both flags (ideal ILP solver over "
+            "the model the code builds, Tarjan components, scripted pivot)",
+            "Decides well-formedness (>= 1 ranking, exactly one when asked, non-empty disjoint buckets, union = universe "
+            "with element identity and type, Consensus bound to the caller's dataset) on the explored datasets, which "
+            "cover int / string elements, all-digit components inside a string universe, incomplete data, ties, "
+            "duplicates, an empty ranking and a single element; plus the KwikSort emission and at-most-one rules.",
+            "NOT decided: what a real solver hands back; datasets beyond the explored ones (the structural clauses W1, "
+            "W3, W4 hold for all). Trusted: solver returns a feasible optimum; igraph component order.",
+            "DESIGN.md section 3 C03"),
+    "C04": ("producer enumeration + abstract evaluation of every score producer (lazy path scenarios, BioConsert "
+            "initial-score table with a symbolic cost matrix, local-search bookkeeping, selection scenarios, PuLP "
+            "objective through a mock solver) + optional-value guard rule reading the dependency's source",
+            "Decides for all inputs: the closed set of code sites that store a reported score; the lazy path computes "
+            "a missing score from the first ranking with the object's own dataset and scheme and never overwrites a "
+            "supplied one; every algorithm's Consensus carries the caller's dataset and scheme; BioConsert's initial "
+            "score is the definitional sum over pairs with row-major strides; the local search returns the sum of "
+            "accepted deltas; BioConsert / PickAPerm report the minimum they select; PuLP reports the objective value "
+            "of the decoded assignment and never stores a None.",
+            "NOT decided: float accumulation error of deltas; the number a real solver reports. Trusted: numba "
+            "semantics; numpy as modelled.",
             "DESIGN.md section 3 C04"),
+    "C05": ("ILP model extraction by abstract evaluation of both builders against mock solvers + triple-local model check "
+            "(enumeration of all 0/1 assignments) + structural availability-gate rule",
+            "Decides: the selector's fallback is live and CPLEX-only classes are constructed only behind an import gate; "
+            "both models admit exactly the assignments induced by rankings with ties (n=3, thorough 4) and agree with "
+            "each other; objective = before/tied cost slots, minimised; every solver answer is decoded to the ranking it "
+            "encodes (single answer and solution pool); pruning constraints cut exactly the rankings violating the "
+            "component order and the no-tie rule fires iff before+after-2*tied <= threshold for all pairs; optimize + "
+            "all-rankings is refused before modelling; the optimised path projects each component keeping every ranking.",
+            "NOT decided: optimality of what a solver returns; soundness of the pruning theorems; igraph component "
+            "order. Triple-locality lemma is an argument.",
+            "DESIGN.md section 3 C05"),
+    "C06": ("abstract evaluation of ParCons on scripted component scenarios with stub sub-solvers (flag typestate, "
+            "partition / consensus order, projection) + structural rule on optimality producers + cost-cube evaluation "
+            "of the graph predicates",
+            "Decides: NECESSARILY_OPTIMAL is True iff no component was delegated to the auxiliary algorithm, in any "
+            "order of exact / auxiliary components; only exact back-ends store a literal True; the weak partition and the "
+            "consensus list the components in order; sub-solvers get a projection with one (possibly empty) ranking per "
+            "input ranking over exactly the component, the caller's scheme and at-most-one; the exact sub-solver exists "
+            "with and without CPLEX; arc / all-tied predicates are in normal form.",
+            "NOT decided: that an optimal consensus respects the partition and that concatenated optima are optimal "
+            "(theorems over costs).",
+            "DESIGN.md section 3 C06"),
+    "C07": ("cost-cube evaluation of the numpy predicates over all weak orderings; abstract evaluation of the merge loop "
+            "on component sequences x robust-arc sets against the fix-point; of the consistency walk on all "
+            "(ordered partition, ranking) pairs over 3 elements",
+            "Decides: robust arc iff before strictly cheapest; ParFront = fix-point of merging consecutive groups lacking "
+            "a full set of robust arcs (order kept, head group re-examined, terminates); consistent_with terminates and "
+            "answers 'earlier group strictly before later group' incl. degenerate inputs; ParCons partition = components "
+            "in order.",
+            "NOT decided: that every optimal consensus respects the partition (theorem); igraph component order.",
+            "DESIGN.md section 3 C07"),
     "C08": ("exhaustive abstract evaluation of the local search on every dense bucket-id vector of <= 4 (thorough: 5) "
             "elements with a symbolic cost matrix and a policy for acceptance tests",
-            "Decides the fix-point protocol, both neighbourhoods, the negative thresholds, complete candidate coverage, "
-            "that each tested accumulated value equals the definitional move delta, the highest-bucket bookkeeping, "
-            "dense renumbering after a move and absence of out-of-range indexing - for every cost matrix, on all order "
-            "types of bucket-id vectors of the bounded universe (ids are only compared and shifted by one, so larger "
-            "universes add no new guard combination).",
-            "NOT decided: float accumulation error. Small-scope argument for universes > 5 elements is an argument, not "
-            "a check. Trusted: numba nopython semantics.",
+            "Decides the fix-point protocol, both neighbourhoods, negative thresholds, complete candidate coverage, that "
+            "each tested accumulated value equals the definitional move delta, the highest-bucket bookkeeping, dense "
+            "renumbering after a move and absence of out-of-range indexing - for every cost matrix, on all order types "
+            "of bucket-id vectors of the bounded universe.",
+            "NOT decided: float accumulation error. Small-scope argument for larger universes is an argument.",
             "DESIGN.md section 3 C08"),
-    "C09": ("abstract evaluation of the departure-ranking builder on scenarios whose derived datasets number "
-            "elements differently from the caller (id-space agreement), plus the C04/C08 tables",
-            "Decides that every starting row is encoded with the caller's element ids (the ids the cost matrix and the "
-            "decoder use), that the start set is every distinct unified ranking plus the all-tied row or one row per "
-            "starter computed on the caller's inputs, that initial scores are definitional, that only strictly "
-            "improving moves are applied, and that exactly the minimal rows are returned.",
+    "C09": ("abstract evaluation of the departure-ranking builder on scenarios whose derived datasets number elements "
+            "differently from the caller (id-space agreement), plus the C04/C08 tables",
+            "Decides that every starting row is encoded with the caller's element ids, that the start set is every "
+            "distinct unified ranking plus the all-tied row or one row per starter computed on the caller's inputs, "
+            "that initial scores are definitional, that only strictly improving moves are applied, and that exactly "
+            "the minimal rows are returned.",
             "NOT decided: numeric agreement of float deltas; that starters return complete rankings (C03).",
             "DESIGN.md section 3 C09"),
+    "C10": ("abstract evaluation of the scan over all weak orderings of candidate scores x flags x completeness, of the "
+            "guard, of Dataset.unified_rankings; shared equivalence rule",
+            "Decides: refusal iff incomplete and not equivalent to the unifying scheme; exactly the minimal candidates "
+            "are returned (one when asked) with their score; candidates are scored against the caller's dataset / scheme; "
+            "unified candidates are new rankings = buckets + one last bucket of exactly the missing elements.",
+            "NOT decided: the numeric score of each candidate (C01).",
+            "DESIGN.md section 3 C10"),
     "C11": ("abstract evaluation of the vectorised status counts with symbolic B/T over one-, two- and three-ranking "
-            "worlds, of the decision tree over the 13 weak orderings of three costs, and of the three-way partition "
-            "over all 27 sign assignments",
-            "Decides the per-step placement rule for every dataset, scheme and pivot: the three costs are the "
-            "definitional before/tied/after costs, tie is chosen iff cheapest (ties preferred) else before iff <= after, "
-            "negative/zero/positive go before/with/after the pivot exactly once, and the pivot is drawn from the "
-            "remaining elements.",
-            "NOT decided: the mathematical implication from the placement rule to pivot independence for coherent "
-            "preferences. Trusted: numpy count_nonzero/vdot on integer vectors.",
+            "worlds, of the decision tree over the 13 weak orderings of three costs, and of the three-way partition over "
+            "all 27 sign assignments",
+            "Decides the per-step placement rule for every dataset, scheme and pivot.",
+            "NOT decided: the mathematical implication from the placement rule to pivot independence.",
             "DESIGN.md section 3 C11"),
+    "C12": ("abstract evaluation of the real compute method on small datasets x scheme families x both variants against "
+            "the mean-score definition computed with exact fractions",
+            "Decides refusal, unified-vs-raw choice, per-ranking score, mean, ascending order and grouping.",
+            "NOT decided: float equality of equal means (IEEE argument).",
+            "DESIGN.md section 3 C12"),
     "C13": ("abstract evaluation of the pair counter over the order types of (before, after) and of the "
             "ordering/grouping code over the 13 weak orderings of three scores",
-            "Decides the counting rule (1 / 0.5 / 0 and the victory-equality-defeat columns, each unordered pair once, "
-            "tie slot irrelevant), the descending order with grouping of equal scores, and that the feature "
-            "dictionaries are the same arrays keyed by the same id map - for every dataset and scheme.",
-            "Trusted: numpy argsort (any stable or unstable order among equal scores gives the same buckets).",
+            "Decides the counting rule, descending order with grouping, and feature dictionaries keyed by the same id map.",
+            "Trusted: numpy argsort.",
             "DESIGN.md section 3 C13"),
-    "C19": ("abstract evaluation of the constructor over a grid realising every order type of the constrained entries "
-            "(finite truth table), of scaling with symbolic penalties, of the proportionality test over a pool of "
-            "table pairs, and of preset builders / nickname dispatch",
-            "Decides the validation truth table and exception classes, fresh storage, scaling through the validating "
-            "constructor with self untouched, equivalence = positive multiple on both vectors over the compared "
-            "prefix, the documented preset tables and the nickname of each preset.",
-            "NOT decided: homogeneity of Kemeny scores under scaling (linear algebra), float exactness of ratios.",
+    "C14": ("resolved-call-graph arity conformance + abstract evaluation of predicates, names and guards on real instances "
+            "of 17 algorithm configurations x 12 schemes x {CPLEX absent, present}",
+            "Decides: every resolved intra-package call fits its callees; predicates answer the documented bool without "
+            "failing; Borda / PickAPerm / BioConsert-from-them refuse incomplete data exactly when the predicate is False "
+            "and never complete data; no other refusal is reachable from a compute path; delegation rules.",
+            "NOT decided: well-formedness after the guard (C03).",
+            "DESIGN.md section 3 C14"),
+    "C15": ("interprocedural effects / alias / freshness analysis (field-sensitive summaries to a fix-point over the "
+            "resolved call graph) + before/after snapshots of evaluated instances",
+            "Decides for all inputs: no mutation sink is reachable on state aliasing the dataset / ranking / scheme "
+            "arguments of every entry point; non-mutator methods of the data classes never write self; compute never "
+            "writes the algorithm object; randomness only through the KwikSort pivot. Snapshots confirm on evaluated "
+            "instances, and a second run returns the same consensus.",
+            "Trusted: numpy/numba functions write only what the in-place table says.",
+            "DESIGN.md section 3 C15"),
+    "C16": ("type-based structural rule (Ranking internals frozen) + abstract evaluation of the real Element / Ranking / "
+            "Dataset code on model instances: invariants after construction and after every mutation history of "
+            "length 2 (thorough 3), failure atomicity, derived datasets",
+            "Decides U1 for all programs; the invariants, documented effects and atomic refusals on the explored "
+            "histories from six start datasets; unification and projection semantics.",
+            "NOT decided: histories longer than the bound (each step re-establishes the invariants from the rankings alone).",
+            "DESIGN.md section 3 C16"),
+    "C17": ("taint rule over the call graph (rendering / set-order sources vs equality results) + abstract evaluation of "
+            "the real __eq__ / __hash__ bodies on pairs",
+            "Decides that no text rendering or set iteration order can reach an equality result; equality semantics of "
+            "Element, Ranking and Dataset (multiset of rankings) incl. symmetry and reflexivity on explored pairs.",
+            "Set iteration order is canonical in the evaluator; Y1 is what rules it out in the real code.",
+            "DESIGN.md section 3 C17"),
+    "C18": ("bounded abstract evaluation of the real parser on all strings over the format alphabet up to length 3 "
+            "(thorough 5) + structural scanner-progress and subscript-safety rules + round trips on a fake file system",
+            "Decides totality (parse or ValueError) on the bounded strings, loop progress and index safety for any "
+            "length, text round trip for all rankings with ties over <= 3 elements in both notations, file round trip "
+            "incl. empty rankings, and writer/reader line-filter agreement.",
+            "NOT decided: round trips beyond the bound.",
+            "DESIGN.md section 3 C18"),
+    "C19": ("abstract evaluation of the constructor over a grid realising every order type of the constrained entries, "
+            "of scaling with symbolic penalties, of the proportionality test over a pool of table pairs, of preset "
+            "builders / nickname dispatch",
+            "Decides the validation truth table and exception classes, fresh storage, scaling, equivalence and nicknames.",
+            "NOT decided: homogeneity of scores under scaling, float exactness of ratios.",
             "DESIGN.md section 3 C19"),
+    "C20": ("exhaustive abstract evaluation of every Markov step from every dense (and partially unranked) bucket-id "
+            "vector of <= 4 (thorough 5) elements, every element, every draw; of the conversion and the wrappers",
+            "Decides density preservation per step (hence for every walk), no unranking in complete mode, exact missing "
+            "set, draw ranges, vector-to-buckets conversion, uniform permutations and wrapper argument passing.",
+            "NOT decided: the distribution; n = 0.",
+            "DESIGN.md section 3 C20"),
 }
-
 
 def main():
     checks = []
